@@ -16,9 +16,6 @@ Definition layout_b := [mk_blk Z (DInt true 8) true [[11; 12]]; mk_blk Z (DInt t
 Example layouts_same_columns : flatten Z layout_a = flatten Z layout_b.
 Proof. reflexivity. Qed.
 
-Example dom_holds : frame_dom Z Z.eqb index0 columns0 (Some [2; 3]) (Some [30; 10; 40]) = true.
-Proof. reflexivity. Qed.
-
 Definition expected : list (col Z) :=
   [(DFlt 8, [1032; -1]); (DFlt 8, [1012; -1]); (DFlt 8, [-1; -1])].
 
@@ -38,11 +35,16 @@ Example reindex_unified_subset :
   Ok [(DInt true 8, [32; 31]); (DInt true 8, [12; 11])].
 Proof. vm_compute. reflexivity. Qed.
 
-(* outside the domain: no common row label, a kept column -> the layouts disagree *)
-Example outside_dom : frame_dom Z Z.eqb index0 columns0 (Some [7; 8]) (Some [30; 40]) = false.
-Proof. reflexivity. Qed.
-Example outside_dom_layouts_disagree :
-  zreindex index0 columns0 layout_a (Some [7; 8]) (Some [30; 40]) <>
-  zreindex index0 columns0 [mk_blk Z (DInt true 8) false [[11; 12]; [21; 22]]; mk_blk Z (DInt true 8) true [[31; 32]]]
-           (Some [7; 8]) (Some [30; 40]).
-Proof. vm_compute. discriminate. Qed.
+(* no common row label, a kept column (the case repaired by fix 658b4ce): every layout gives fill cells *)
+Example no_common_rows_layout_a :
+  res_map (flatten Z) (zreindex index0 columns0 layout_a (Some [7; 8]) (Some [30; 40])) =
+  Ok [(DFlt 8, [-1; -1]); (DFlt 8, [-1; -1])].
+Proof. vm_compute. reflexivity. Qed.
+Example no_common_rows_layout_b :
+  res_map (flatten Z) (zreindex index0 columns0 layout_b (Some [7; 8]) (Some [30; 40])) =
+  Ok [(DFlt 8, [-1; -1]); (DFlt 8, [-1; -1])].
+Proof. vm_compute. reflexivity. Qed.
+(* no column label in common, common rows *)
+Example no_common_columns :
+  res_map (flatten Z) (zreindex index0 columns0 layout_b (Some [2; 3]) (Some [40])) = Ok [(DFlt 8, [-1; -1])].
+Proof. vm_compute. reflexivity. Qed.
